@@ -341,7 +341,11 @@ class Ctx:
             "/": operator.truediv, "**": operator.pow, "==": operator.eq,
             "!=": operator.ne, "<": operator.lt, "<=": operator.le,
             ">": operator.gt, ">=": operator.ge, "//": operator.floordiv,
-            "%": operator.mod}
+            "%": operator.mod,
+            # augmented assignment: falls back to the binary operator unless
+            # the type defines the in-place method
+            "+=": operator.iadd, "-=": operator.isub, "*=": operator.imul,
+            "/=": operator.itruediv, "**=": operator.ipow}
 
     def e_op(self, e):
         a = self.ev(e[2])
